@@ -15,7 +15,7 @@ case "$FLAV" in
   *) echo "unknown flavour $FLAV" >&2; exit 2 ;;
 esac
 COMMON="-std=gnu99 -I$REPO/include -I$SIM -DCELLO_VERIF -DCELLO_NSTRACE -fno-pie -Wall -Wno-unused -Wno-unknown-pragmas $FL $*"
-WRAP="-Wl,--wrap=malloc,--wrap=calloc,--wrap=realloc,--wrap=free,--wrap=pthread_create,--wrap=pthread_join,--wrap=pthread_mutex_lock,--wrap=pthread_mutex_trylock,--wrap=pthread_mutex_unlock,--wrap=fopen,--wrap=fclose"
+WRAP="-Wl,--wrap=malloc,--wrap=calloc,--wrap=realloc,--wrap=free,--wrap=pthread_create,--wrap=pthread_join,--wrap=pthread_mutex_lock,--wrap=pthread_mutex_trylock,--wrap=pthread_mutex_unlock,--wrap=fopen,--wrap=fclose,--wrap=fread,--wrap=fwrite,--wrap=fseek,--wrap=ftell,--wrap=fflush,--wrap=feof,--wrap=vfprintf,--wrap=vfscanf"
 pids=""
 fail=0
 # pthread_getspecific is redirected by a macro for /repo's objects only: under --wrap the sanitizer runtime's own
